@@ -102,7 +102,15 @@ impl Quantile {
             if index < len - 1 {
                 // `q[index]` and `q[index + 1]` are equally valid estimates,
                 // by convention we take their average.
-                return 0.5 * heights[index] + 0.5 * heights[index + 1];
+                let (lo, hi) = (heights[index], heights[index + 1]);
+                // Take the midpoint such that it cannot leave `[lo, hi]`: halving
+                // the difference is exact for subnormal values, halving the
+                // operands avoids overflow for values of opposite sign.
+                return if (lo < 0.) == (hi < 0.) {
+                    lo + 0.5 * (hi - lo)
+                } else {
+                    0.5 * lo + 0.5 * hi
+                };
             }
         }
         index = index.max(0.);
